@@ -645,3 +645,12 @@ def op_typed(ctx, rule="OP-TYPED"):
         ctx.check(built == sorted(["Literal", wrap]) and okd and not cmpc, rule, "%s builds Literal(eval(..)) or %s(..) only" % (short(folder), wrap), "builds %s" % built,
                   "%s builds %s, branches on %s and compares with %s: constructors must only fold literals or wrap their operands (any other simplification makes built and lazily "
                   "evaluated expressions differ)" % (short(folder), built, sws, cmpc), h.loc(), fn=folder, key="%s|%s" % (rule, short(folder)))
+    # the logical constructors build their node and nothing else: normalisation to 0/1 happens in Ast::eval, so any construction-time shortcut
+    # (returning an operand for a constant left side) changes the value of the expression
+    for cons, node in (("msi::internal::expr::Expr::and", "And"), ("msi::internal::expr::Expr::or", "Or")):
+        h = prog.fn(cons)
+        built = sorted({s["rhs"]["variant"] for bl in h.blocks if not bl["cleanup"] for s in bl["stmts"] if s["rhs"]["rv"] == "agg" and (s["rhs"].get("adt") or "").endswith("expr::Ast")})
+        branches = [Sym(prog, h).val(bl["term"]["discr"]) for bl in h.blocks if not bl["cleanup"] and bl["term"]["t"] == "switch"]
+        branches = [x for x in branches if not re.fullmatch(r"_\d+", x)]
+        ctx.check(built == [node] and not branches, rule, "%s builds Ast::%s only" % (short(cons), node), "", "%s builds %s and branches on %s: the constructor must wrap both operands in Ast::%s "
+                  "unconditionally (evaluation normalises the result to 0/1; a shortcut that returns an operand does not)" % (short(cons), built, branches, node), h.loc(), fn=cons, key="%s|%s" % (rule, short(cons)))
